@@ -345,6 +345,7 @@ int snapshot_load(hwloc_topology_t t, size_t index, unsigned comp, unsigned env,
   for (auto &kv : s.envs[env % s.envs.size()]) g.set(kv.first, kv.second);
   return hwloc_topology_load(t);
 }
+long snapshot_index(const char *name) { auto &all = snaps(); for (size_t i = 0; i < all.size(); i++) if (all[i].name == name) return (long)i; return -1; }
 const char *snapshot_kind(size_t i) { return i < snaps().size() ? snaps()[i].kind.c_str() : ""; }
 
 bool ops_snapshot(World &w, const Op &o) {
